@@ -40,6 +40,7 @@ def main():
         c.oblige("Gen_level (translator over LogarithmicUnit.level / Level.quantify / power_ratio)", False, f"untranslatable: {ex}")
     exp0 = impl("export_worker.py", {})
     S = sizes.Sizes(exp0)
+    pvals = {n: (Fraction(1) if p[0] == 0 else Fraction(p[0]) ** p[1]) for n, p in exp0["prefix_by_name"].items() if not isinstance(p, dict)}
     # ---------------- cases
     cases, meta = [], []
     n = 350 if quick else 5000
@@ -94,8 +95,14 @@ def main():
         b = base if base is not None else E
         if rec.get("power_ratio") != k:
             c.violation(f"power-ratio:{fam}", f"power_ratio is {rec.get('power_ratio')} for a {fam} reference (expected {k})", repl); continue
-        # the logarithmic unit keeps its reference in unprefixed units: use the reference the implementation reports
+        # the logarithmic unit keeps its reference in unprefixed units; it must be the reference that was given
         ref_m = dec(frac(rec["ref"]["m"]))
+        rspec = cs["r"]["ref"] if cs["op"] == "level" else cs["l"]["ref"]
+        given = frac(rspec["m"])
+        for p_, n_, e_ in rspec["u"]:
+            if p_: given *= pvals[p_] ** e_
+        if abs(frac(rec["ref"]["m"]) - given) > Fraction(1, 10**9) * abs(given):
+            c.violation("reference-changed", f"the logarithmic unit built for the reference {float(given)} (unprefixed) reports the reference {float(frac(rec['ref']['m']))}", repl); continue
         if cs["op"] == "level":
             stats["levels"] += 1
             ratio = S.ratio({"p": rec["lc"]["u"]["p"], "f": rec["lc"]["u"]["f"]}, {"p": rec["ref"]["u"]["p"], "f": rec["ref"]["u"]["f"]})
